@@ -55,7 +55,15 @@ const (
 	StylePlain = ""    // a/b
 	StyleDot   = "dot" // ./a/b
 	StyleAbs   = "abs" // /a/b
+	// Further spellings of an absolute name (same entry once the name is cleaned).
+	StyleAbs2   = "abs2"   // //a/b
+	StyleAbsDot = "absdot" // /./a/b
 )
+
+// AbsoluteStyle reports whether the style writes a header name that starts with "/".
+func AbsoluteStyle(style string) bool {
+	return style == StyleAbs || style == StyleAbs2 || style == StyleAbsDot
+}
 
 // Whiteout naming of the OCI image-spec.
 const (
@@ -169,6 +177,10 @@ func (e Entry) TarName() string {
 		p = "./" + p
 	case StyleAbs:
 		p = "/" + p
+	case StyleAbs2:
+		p = "//" + p
+	case StyleAbsDot:
+		p = "/./" + p
 	}
 	if e.Kind == KindDir && e.Slash && !strings.HasSuffix(p, "/") {
 		p += "/"
